@@ -179,7 +179,7 @@ def run_c05(tier, replay=None):
     sc = vlib.scratch()
     quick = tier != "thorough"
     reps = 20 if quick else 100
-    nrandom = 300 if quick else 5000
+    nrandom = 300 if quick else 2000
 
     if replay:
         return _c05_replay(replay)
@@ -310,7 +310,7 @@ def _select_programs(progs, tier, rng):
         v = by[k]
         fam, g, l = k
         if fam == "txfull":
-            n = 200 if tier == "quick" else len(v)
+            n = 200 if tier == "quick" else 2500
         elif fam.startswith("txhot") and (g, l) == (3, 3):
             n = 30 if tier == "quick" else 300
         elif fam.startswith("txhot"):
@@ -453,7 +453,7 @@ def run_c29(tier, replay=None):
     rng = random.Random(vlib.seed())
     reps = 50 if quick else 2000
     race_reps = 10 if quick else 50
-    nproc = 4 if quick else 8
+    nproc = max(2, min(4 if quick else 8, vlib.NCPU))
 
     if replay:
         return _c29_replay(replay)
